@@ -72,7 +72,7 @@ func init() {
 }
 
 var c15Behaviours = []string{"nothing", "model", "collection", "notfound", "invalidquery", "invalidquery-msg", "error-res", "error-plain", "error-nomsg", "error-nil", "events", "events-many", "timeout-then-model",
-	"panic-reserr", "panic-err", "panic-str", "panic-int", "panic-runtime", "panic-nil", "reply-twice", "panic-after-reply", "panic-reserr-nil", "events-then-panic-nil"}
+	"panic-reserr", "panic-err", "panic-str", "panic-int", "panic-runtime", "panic-nil", "reply-twice", "panic-after-reply", "panic-reserr-nil", "events-then-panic-nil", "alternate-events-then-reply"}
 
 type c15CB struct {
 	Seq   int64
@@ -89,6 +89,7 @@ type c15Event struct {
 	mu        sync.Mutex
 	cbs       []c15CB
 	reqs      []*c15Req
+	alt       int32 // callback count of behaviour alternate-events-then-reply
 }
 
 type c15Req struct {
@@ -156,6 +157,19 @@ func c15Behave(ev *c15Event, qr res.QueryRequest) {
 				qr.(interface{ AddEvent(interface{}, int) }).AddEvent(i, 0)
 				qr.(interface{ RemoveEvent(int) }).RemoveEvent(0)
 			}
+		}
+	case "alternate-events-then-reply":
+		// every other request: the callback adds events and then answers itself (the events are
+		// dropped with that reply); the requests in between add nothing and get an empty list
+		if atomic.AddInt32(&ev.alt, 1)%2 == 1 {
+			if ev.typ == "model" {
+				qr.(interface {
+					ChangeEvent(map[string]interface{})
+				}).ChangeEvent(map[string]interface{}{"stale": true})
+			} else {
+				qr.(interface{ AddEvent(interface{}, int) }).AddEvent("stale", 0)
+			}
+			qr.NotFound()
 		}
 	case "timeout-then-model":
 		qr.Timeout(3 * time.Second)
@@ -654,6 +668,10 @@ func c15CheckResponse(c *core.Ctx, ev *c15Event, rq *c15Req, data []byte, desc m
 	case "collection", "panic-err", "panic-str", "panic-int", "panic-runtime", "panic-nil", "error-plain", "error-nil", "panic-reserr-nil", "events-then-panic-nil":
 		if code != "system.internalError" {
 			bad("want system.internalError")
+		}
+	case "alternate-events-then-reply":
+		if code != "system.notFound" && (r.Result == nil || r.Result.Events == nil || len(*r.Result.Events) != 0) {
+			bad("want system.notFound (the callback answered itself) or an empty events list (the callback added nothing): events added for an earlier request do not belong to this one")
 		}
 	case "error-nomsg":
 		var raw struct {
